@@ -511,4 +511,8 @@ def run(chk, fb, tier):
     from . import copyrule
     chk.rule("DC", "copy constructor and copy assignment copy the same members and agree on clone versus share for owning pointers; operator= empties a member container before re-populating it")
     copyrule.check(chk, fb, "DC", lambda c: any(c["file"].endswith(x) for x in files), floor=4)
+    from . import argswap as _argswap
+    chk.rule("DA", "argument/parameter name agreement at forwarding calls in the anchored units (same-typed parameters must not be swapped)")
+    _af = ('src/Bpp/Numeric/Prob/DiscreteDistribution.h', 'src/Bpp/Numeric/Prob/AbstractDiscreteDistribution.h', 'src/Bpp/Numeric/Prob/AbstractDiscreteDistribution.cpp', 'src/Bpp/Numeric/Prob/GammaDiscreteDistribution.cpp', 'src/Bpp/Numeric/Prob/BetaDiscreteDistribution.cpp', 'src/Bpp/Numeric/Prob/GaussianDiscreteDistribution.cpp', 'src/Bpp/Numeric/Prob/ExponentialDiscreteDistribution.h', 'src/Bpp/Numeric/Prob/TruncatedExponentialDiscreteDistribution.h', 'src/Bpp/Numeric/Prob/UniformDiscreteDistribution.h', 'src/Bpp/Numeric/Prob/SimpleDiscreteDistribution.cpp', 'src/Bpp/Numeric/Prob/ConstantDistribution.cpp', 'src/Bpp/Numeric/Prob/InvariantMixedDiscreteDistribution.cpp', 'src/Bpp/Numeric/Prob/MixtureOfDiscreteDistributions.cpp')
+    _argswap.check(chk, fb, "DA", [f_ for f_ in fb.concrete_fns() if f_.body is not None and any(f_.relfile.endswith(x_) for x_ in _af)], 1)
     chk.assume("DirichletDiscreteDistribution is multivariate and outside the property's family list")
